@@ -31,12 +31,12 @@ import (
 	"testing/synctest"
 	"time"
 
+	"github.com/KafScale/platform/internal/verif/vh"
 	"github.com/kafscale/platform/addons/processors/sql-processor/internal/checkpoint"
 	"github.com/kafscale/platform/addons/processors/sql-processor/internal/config"
 	"github.com/kafscale/platform/addons/processors/sql-processor/internal/decoder"
 	"github.com/kafscale/platform/addons/processors/sql-processor/internal/discovery"
 	"github.com/kafscale/platform/addons/processors/sql-processor/internal/sink"
-	"github.com/KafScale/platform/internal/verif/vh"
 )
 
 // ---------------------------------------------------------------------------
